@@ -662,7 +662,8 @@ theorem loadText_printable (path : String) (text : List UInt8) (ds : List Direct
   · rename_i f hp
     obtain ⟨vs, hvs, hviews⟩ := parse_views hp
     split at h
-    · cases h
+    · unfold loadFailed at h
+      split at h <;> cases h
     · rename_i items hitems
       have e : f.directives.mapM (item text) = (vs.map DirT.bytes).mapM itemV :=
         mapM_congr_view hviews (fun d w hw => item_of_view hw)
